@@ -1,4 +1,5 @@
 import RichModel.Model.Progress
+import RichModel.Model.ProgressFmt
 import RichModel.Drv.Proto
 /- Driver handlers for property C12 (progress accounting).
 
@@ -6,6 +7,15 @@ Requests
   pg_hist   cfg  clock  ops            sequential history, answer per operation
   pg_sched  cfg  clock  setup  progs  events     replay of a thread schedule (event log from the real run)
   pg_track  cfg  clock  setup  mode  taskId  total  n  seen    Progress.track / _TrackThread
+  pf_pick   size n base          filesize.pick_unit_and_suffix  -> "unit idx" | err:UnboundLocalError
+  pf_tostr  size n base          filesize._to_str with suffixes s0..s(n-1)
+  pf_decimal size                filesize.decimal
+  pf_download binary completed total     DownloadColumn text
+  pf_fixed  p a b                format(a / b, ',.<p>f')      (a, b Python ints)
+  pf_trunc  a b                  int(a / b)
+  pf_td     n                    str(timedelta(seconds=n))  | err:OverflowError
+  pf_bar    width total completed        ProgressBar characters (colour console, no pulse)
+  pf_col    cfg A total completed fin start stop samples elapsed    what the columns show for a task
 
 cfg    = "period maxLen tps clockOutside refreshReads"
 clock  = readings, space separated (call k returns reading k; the last one repeats)
@@ -141,7 +151,64 @@ def replay (cfg : Cfg) (clock : Clock) : List (Bool × Nat) → Nat → Conf →
       if isRead then .error ("rejected@" ++ toString idx ++ ":model-expects-commit")
       else replay cfg clock rest (idx + 1) c' (encErr err :: acc)
 
-def handlers : List (String × (List String → String)) := [
+open RichModel.ProgressFmt in
+def encExc : Except FmtErr (List Char) → String
+  | .ok s => "ok:" ++ encStr s
+  | .error .overflow => "err:OverflowError"
+
+def decSamples (s : String) : List Sample :=
+  if s.isEmpty then [] else
+  (s.splitOn " ").filterMap (fun x => match x.splitOn ":" with
+    | [a, b] => match a.toInt?, b.toInt? with
+      | some a, some b => some ⟨a, b⟩
+      | _, _ => none
+    | _ => none)
+
+open RichModel.ProgressFmt in
+def fmtHandlers : List (String × (List String → String)) := [
+  ("pf_pick", fun a => match a with
+    | [size, n, base] =>
+      match pickUnit (decInt size) (decNat n) (decInt base) with
+      | none => "err:UnboundLocalError"
+      | some (u, i) => toString u ++ " " ++ toString i
+    | _ => "bad-args"),
+  ("pf_tostr", fun a => match a with
+    | [size, n, base] =>
+      let sfx := (List.range (decNat n)).map (fun j => 's' :: natStr j)
+      match renderSizeStr sfx (toStrSel (decInt size) (decNat n) (decInt base)) with
+      | none => "err:UnboundLocalError"
+      | some s => "ok:" ++ encStr s
+    | _ => "bad-args"),
+  ("pf_decimal", fun a => match a with
+    | [size] => encStr (decimal (decInt size))
+    | _ => "bad-args"),
+  ("pf_download", fun a => match a with
+    | [b, c, t] => encStr (downloadText (decBool b) (decInt c) (decInt t))
+    | _ => "bad-args"),
+  ("pf_fixed", fun a => match a with
+    | [p, x, y] => if decInt y == 0 then "unmodelled" else encStr (divFixed (decNat p) (decInt x) (decInt y))
+    | _ => "bad-args"),
+  ("pf_trunc", fun a => match a with
+    | [x, y] => if decInt y == 0 then "unmodelled" else toString (truncDiv (decInt x) (decInt y))
+    | _ => "bad-args"),
+  ("pf_td", fun a => match a with
+    | [n] => encExc (tdStr (decInt n))
+    | _ => "bad-args"),
+  ("pf_bar", fun a => match a with
+    | [w, t, c] => encStr (barText (decNat w) (decInt t) (decInt c))
+    | _ => "bad-args"),
+  ("pf_col", fun a => match a with
+    | [cfg, A, tot, comp, fin, st, sp, samples, el] =>
+      let cfg := decCfg cfg
+      let t : Task := ⟨0, 0, decInt tot, decInt comp, decOI fin, true, [], decOI st, decOI sp, decSamples samples⟩
+      let ba := barArgs t
+      "|".intercalate [encStr (pctText t), toString ba.1 ++ " " ++ toString ba.2.1 ++ " " ++ encBool ba.2.2,
+        encExc (timeRemainingText cfg t), encExc (timeElapsedText cfg (decOI el)),
+        encStr (transferSpeedText cfg (decInt A) t)]
+    | _ => "bad-args")
+]
+
+def handlers : List (String × (List String → String)) := fmtHandlers ++ [
   ("pg_hist", fun a => match a with
     | [cfg, clock, ops] =>
       match decOps ops with
